@@ -418,8 +418,13 @@ func checkC14(c C14Case) (o Outcome) {
 			asm.Parse(text, &failingWriter{after: a1.Len() / 2})
 			_, e2 = asm.Parse(text, &a2)
 		}); p != nil {
-			o.Viol = &Violation{Kind: "asm-panic", Msg: fmt.Sprintf("asm.Parse panics on the listing %q: %s", text, p.val), Detail: p.stack}
-			return
+			// a listing need not be valid assembly source (a symbol like "0" is encodable, but
+			// no identifier), and what the assembler does with invalid source is not this
+			// property's subject: counted, not judged
+			o.class("assembler-panics-on-listing")
+			a1.Reset()
+			a2.Reset()
+			e1, e2 = fmt.Errorf("panic"), fmt.Errorf("panic")
 		}
 		// ... and where the assembler takes the listing, it writes the bytes the listing was
 		// made from (selector shapes of known finding F-C16-1 aside)
